@@ -53,14 +53,18 @@ def gen_repo(rng, portable=False, cfg=None):
             d = c + '/' + pk
             roles['manifest_dirs'].append(d)
             roles['package_dirs'].append(d)
-            for v in rng.sample(['1.0', '2', '2.1-r1', '9999'], rng.choice([1, 1, 2, 3])):
+            ebuildless = rng.random() < cfg.get('p_ebuildless', 0.1)
+            if ebuildless:
+                # a package directory that has its metadata.xml and files/ but no ebuild yet
+                roles.setdefault('ebuildless', []).append(d)
+            for v in ([] if ebuildless else rng.sample(['1.0', '2', '2.1-r1', '9999'], rng.choice([1, 1, 2, 3]))):
                 p = '%s/%s-%s.ebuild' % (d, pk, v)
                 add(p)
                 roles['tags'][p] = 'EBUILD'
-            if rng.random() < 0.8:
+            if ebuildless or rng.random() < 0.8:
                 add(d + '/metadata.xml')
                 roles['tags'][d + '/metadata.xml'] = 'MISC'
-            if rng.random() < 0.6:
+            if ebuildless or rng.random() < 0.6:
                 for n in rng.sample(['fix.patch', 'init.d', 'conf', 'sub/deep.patch', 'sub/more/x'], rng.choice([1, 2, 3])):
                     p = d + '/files/' + n
                     add(p)
@@ -93,7 +97,10 @@ def gen_repo(rng, portable=False, cfg=None):
     if std or rng.random() < 0.7:
         roles['manifest_dirs'].append('profiles')
         tree.append({'p': 'profiles', 'k': 'dir'})
-        add('profiles/categories', ''.join(c + '\n' for c in catlist))
+        cats_text = ''.join(c + '\n' for c in catlist)
+        if catlist and rng.random() < 0.3:
+            cats_text = cats_text[:-1]          # written with '\n'.join(): no newline after the last category
+        add('profiles/categories', cats_text)
         add('profiles/repo_name', 'test\n')
         for n in rng.sample(['arch/amd64/make.defaults', 'base/packages', 'desc/foo.desc'], rng.choice([0, 1, 2])):
             add('profiles/' + n)
